@@ -34,7 +34,8 @@ class Item:
     """One function to translate."""
 
     def __init__(self, path, qual, coqname, params, selfs=None, out_selfs=None, calls=None,
-                 consts=None, identity=(), const_true=(), partial=False):
+                 consts=None, identity=(), const_true=(), partial=False,
+                 objlists=None, objvars=None, out_lists=None, file='GenFun.v'):
         self.path = path            # file relative to repo
         self.qual = qual            # 'func' or 'Class.method'
         self.coqname = coqname
@@ -46,6 +47,12 @@ class Item:
         self.identity = set(identity)      # calls that return their argument unchanged
         self.const_true = set(const_true)  # source text of tests known to be True for our typing
         self.partial = partial      # raise -> None, return x -> Some x
+        # lists of objects read/written attribute-wise: python text 'self.children' ->
+        # (prefix, [attr...]); attribute a of element i is element i of the Coq list <prefix>_<a>
+        self.objlists = objlists or {}
+        self.objvars = objvars or {}       # local variable bound to one element -> python text of its list
+        self.out_lists = out_lists or []   # Coq list names returned after the result
+        self.file = file
 
 
 class FunTranslator:
@@ -85,6 +92,18 @@ class FunTranslator:
                 nm = 'self_' + e.attr
                 if nm in env:
                     return nm, env[nm]
+            if isinstance(e.value, ast.Subscript) and self.src(e.value.value) in it.objlists \
+                    and not isinstance(e.value.slice, ast.Slice):
+                prefix, attrs = it.objlists[self.src(e.value.value)]
+                if e.attr not in attrs:
+                    self.err(e, 'attribute %s of %s is not declared' % (e.attr, prefix))
+                return '(znth %s %s_%s)' % (self.zexpr(e.value.slice, env), prefix, e.attr), 'Z'
+            if isinstance(e.value, ast.Name) and isinstance(env.get(e.value.id), tuple):
+                _, prefix, idx = env[e.value.id]
+                attrs = dict(it.objlists.values())[prefix]
+                if e.attr not in attrs:
+                    self.err(e, 'attribute %s of %s is not declared' % (e.attr, prefix))
+                return '(znth %s %s_%s)' % (idx, prefix, e.attr), 'Z'
             self.err(e, 'unsupported attribute %s' % s)
         if isinstance(e, ast.BinOp):
             if isinstance(e.op, ast.Div):
@@ -153,6 +172,9 @@ class FunTranslator:
                 return self.expr(e.args[0], env)
             if fs == 'struct.calcsize':
                 return zlit(self.calcsize(e.args[0])), 'Z'
+            if fs == 'len' and self.src(e.args[0]) in it.objlists:
+                prefix, attrs = it.objlists[self.src(e.args[0])]
+                return '(Z.of_nat (Datatypes.length %s_%s))' % (prefix, attrs[0]), 'Z'
             if fs == 'len':
                 a, ta = self.expr(e.args[0], env)
                 if ta not in ('bytes', 'table'):
@@ -232,6 +254,11 @@ class FunTranslator:
             return [t.id]
         if isinstance(t, ast.Attribute) and isinstance(t.value, ast.Name) and t.value.id == 'self':
             return ['self_' + t.attr]
+        if isinstance(t, ast.Attribute) and isinstance(t.value, ast.Name) and t.value.id in self.item.objvars:
+            prefix, attrs = self.item.objlists[self.item.objvars[t.value.id]]
+            if t.attr not in attrs:
+                self.err(t, 'attribute %s of %s is not declared' % (t.attr, prefix))
+            return ['%s_%s' % (prefix, t.attr)]
         if isinstance(t, ast.Tuple):
             r = []
             for x in t.elts:
@@ -285,9 +312,9 @@ class FunTranslator:
             if st.value is None:
                 self.err(st, 'bare return')
             s, t = self.expr(st.value, env)
-            outs = [x for x in self.item.out_selfs]
+            outs = ['self_' + x for x in self.item.out_selfs] + list(self.item.out_lists)
             if outs:
-                s = '(%s, %s)' % (s, ', '.join('self_' + o for o in outs))
+                s = '(%s, %s)' % (s, ', '.join(outs))
             return self.retwrap(s)
         if isinstance(st, ast.Raise):
             if not self.item.partial:
@@ -316,6 +343,24 @@ class FunTranslator:
                     env2 = dict(env)
                     env2[tgt.id] = 'identfun'
                     return self.block(rest, env2, tail)
+                # `c = self.children[i]`: bind a local name to one element of an object list
+                if isinstance(tgt, ast.Name) and tgt.id in self.item.objvars:
+                    lst = self.item.objvars[tgt.id]
+                    if not (isinstance(st.value, ast.Subscript) and self.src(st.value.value) == lst
+                            and not isinstance(st.value.slice, ast.Slice)):
+                        self.err(st, '%s must be bound to an element of %s' % (tgt.id, lst))
+                    env2 = dict(env)
+                    env2[tgt.id] = ('obj', self.item.objlists[lst][0], self.zexpr(st.value.slice, env))
+                    return self.block(rest, env2, tail)
+                # `c.attr = v`: functional update of the attribute list
+                if isinstance(tgt, ast.Attribute) and isinstance(tgt.value, ast.Name) \
+                        and tgt.value.id in self.item.objvars:
+                    if not isinstance(env.get(tgt.value.id), tuple):
+                        self.err(st, '%s is not bound' % tgt.value.id)
+                    _, prefix, idx = env[tgt.value.id]
+                    nm = self.target_names(tgt)[0]
+                    v = self.zexpr(st.value, env)
+                    return 'let %s := (zupd %s %s %s) in\n  %s' % (nm, idx, v, nm, self.block(rest, env, tail))
                 s, t = self.expr(st.value, env)
             else:
                 tgt = st.target
@@ -431,6 +476,10 @@ class FunTranslator:
         for k, t in it.selfs.items():
             env['self_' + k] = t
             binders.append(('self_' + k, t))
+        for prefix, attrs in it.objlists.values():
+            for a in attrs:
+                env['%s_%s' % (prefix, a)] = 'bytes'
+                binders.append(('%s_%s' % (prefix, a), 'bytes'))
         for p, t in it.params:
             env[p] = t
             binders.append((p, t))
@@ -535,6 +584,14 @@ ITEMS = [
     Item('pycdlib/utils.py', 'gmtoffset_from_tm_fields', 'gmtoffset_from_tm', []),  # special-cased below
     Item('tools/pycdlib-genisoimage', 'mm3hash', 'mm3hash', [('key', 'bytes'), ('seed', Zt)],
          identity=['bytearray', 'xencode']),
+    # the directory packing loop: children are read/written attribute-wise
+    Item('pycdlib/dr.py', 'DirectoryRecord._recalculate_extents_and_offsets', 'dr_recalculate',
+         [('index', Zt), ('logical_block_size', Zt)],
+         objlists={'self.children': ('children', ['dr_len', 'offset_to_here', 'extents_to_here',
+                                                  'index_in_parent'])},
+         objvars={'c': 'self.children'},
+         out_lists=['children_offset_to_here', 'children_extents_to_here', 'children_index_in_parent'],
+         file='GenObj.v'),
 ]
 
 
@@ -604,6 +661,9 @@ Local Open Scope Z_scope.
 
 PRELUDE_FUN = '''From PV.Base Require Import Prim.
 From PV.Gen Require Import GenConst.
+'''
+
+PRELUDE_OBJ = '''From PV.Base Require Import Prim Upd.
 '''
 
 
@@ -680,6 +740,7 @@ def generate(repo):
     const.append(txt)
 
     funs = [HEADER, PRELUDE_FUN]
+    objs = [HEADER, PRELUDE_OBJ]
     for it in ITEMS:
         t = tree(it.path)
         if it.coqname == 'gmtoffset_from_tm':
@@ -690,8 +751,8 @@ def generate(repo):
                 raise TranslationError('%s: function %s not found' % (it.path, it.qual))
             txt = FunTranslator(it, fn, t, cls).translate()
         items[it.coqname] = txt
-        funs.append('(* %s :: %s *)\n%s' % (it.path, it.qual, txt))
-    return {'GenConst.v': '\n'.join(const), 'GenFun.v': '\n'.join(funs)}, items
+        (objs if it.file == 'GenObj.v' else funs).append('(* %s :: %s *)\n%s' % (it.path, it.qual, txt))
+    return {'GenConst.v': '\n'.join(const), 'GenFun.v': '\n'.join(funs), 'GenObj.v': '\n'.join(objs)}, items
 
 
 def regenerate(repo, outdir):
